@@ -218,7 +218,9 @@ class Clip(OpDef):
     spellings = ("f", "n", "m")
 
     def np(self, a, p):
-        return np.clip(a[0], p["lo"], p["hi"])
+        # MyGrad wraps the bounds in (float64) constant tensors: mirror that, dtype promotion of
+        # Python scalars is C03's subject
+        return np.clip(a[0], np.asarray(p["lo"]), np.asarray(p["hi"]))
 
     def mg(self, mg, spell, a, p, kw):
         if spell == "m":
